@@ -1,4 +1,207 @@
-//! C17, dynamic-solver and process-level parts (added with the engines they need).
-use crate::report::{Report, Tier};
+//! C17, dynamic-solver part: `Unknown` injected at every SAT call of every query of bounded
+//! histories on the dynamic solvers. (Process-level part: c17_proc, called from here.)
+use crate::choicesat::{explore, set_want_backtrace, take_fault_flag, take_last_backtrace, Exec, ExploreCfg, ExploreStats, FvPolicy};
+use crate::checks::c17::site_of_backtrace;
+use crate::dynamic::*;
+use crate::report::{Report, Tier, Violation};
+use crustabri::sat::SatSolverFactoryFn;
+use rayon::prelude::*;
+use serde_json::json;
+use std::collections::BTreeMap;
 
-pub fn run_rest(_rep: &mut Report, _tier: Tier) {}
+#[derive(Clone, Debug)]
+pub struct FaultObs {
+    /// step at which the Unknown was handed out
+    pub step: Option<usize>,
+    /// what that step returned (None when it unwound)
+    pub answered: Option<String>,
+    pub site: Option<String>,
+}
+
+/// run a history; report where a fault was injected and whether that step still produced a value
+fn run_fault_aware(kind: DynKind, ops: &[Op], factory: Box<SatSolverFactoryFn>) -> FaultObs {
+    take_fault_flag();
+    let mut res = FaultObs { step: None, answered: None, site: None };
+    // one step at a time, so that the flag can be read after each step
+    let mut sut = make_sut(kind, factory);
+    for (i, op) in ops.iter().enumerate() {
+        let one = std::slice::from_ref(op);
+        let obs = step_on(&mut sut, one);
+        if take_fault_flag() {
+            res.step = Some(i);
+            match &obs {
+                StepObs::Panic(_) => {
+                    res.site = take_last_backtrace().and_then(|bt| site_of_backtrace(&bt));
+                }
+                other => res.answered = Some(other.describe()),
+            }
+            break;
+        }
+        if let StepObs::Panic(_) = obs {
+            break;
+        }
+    }
+    let _ = crate::choicesat::catch(move || drop(sut));
+    res
+}
+
+fn step_on(sut: &mut Box<dyn DynSut>, ops: &[Op]) -> StepObs {
+    let op = &ops[0];
+    let r = crate::choicesat::catch(|| match *op {
+        Op::NewArg(a) => {
+            sut.new_argument(LABELS[a as usize]);
+            StepObs::Unit
+        }
+        Op::RemArg(a) => match sut.remove_argument(&LABELS[a as usize]) {
+            Ok(()) => StepObs::Ok,
+            Err(_) => StepObs::Err,
+        },
+        Op::NewAtt(a, b) => match sut.new_attack(&LABELS[a as usize], &LABELS[b as usize]) {
+            Ok(()) => StepObs::Ok,
+            Err(_) => StepObs::Err,
+        },
+        Op::RemAtt(a, b) => match sut.remove_attack(&LABELS[a as usize], &LABELS[b as usize]) {
+            Ok(()) => StepObs::Ok,
+            Err(_) => StepObs::Err,
+        },
+        Op::Query { skeptical, arg, cert } => {
+            let l = &LABELS[arg as usize];
+            let conv = |c: Option<Vec<&crustabri::aa::Argument<usize>>>| c.map(|v| v.iter().map(|a| (*a.label(), a.id())).collect::<Vec<_>>());
+            match (skeptical, cert) {
+                (false, false) => StepObs::Answer(sut.is_credulously_accepted(l), None),
+                (false, true) => {
+                    let (s, c) = sut.is_credulously_accepted_with_certificate(l);
+                    StepObs::Answer(s, conv(c))
+                }
+                (true, false) => StepObs::Answer(sut.is_skeptically_accepted(l), None),
+                (true, true) => {
+                    let (s, c) = sut.is_skeptically_accepted_with_certificate(l);
+                    StepObs::Answer(s, conv(c))
+                }
+            }
+        }
+    });
+    match r {
+        Ok(o) => o,
+        Err(p) => StepObs::Panic(p),
+    }
+}
+
+#[derive(Default)]
+struct Acc {
+    stats: ExploreStats,
+    histories: u64,
+    faults: u64,
+    aborted: u64,
+    sites: BTreeMap<String, u64>,
+    violations: BTreeMap<String, (u64, Violation)>,
+    machinery: Vec<String>,
+    sample: Option<serde_json::Value>,
+}
+
+impl Acc {
+    fn merge(mut self, o: Acc) -> Acc {
+        self.stats.add(&o.stats);
+        self.histories += o.histories;
+        self.faults += o.faults;
+        self.aborted += o.aborted;
+        for (k, v) in o.sites {
+            *self.sites.entry(k).or_insert(0) += v;
+        }
+        for (k, (n, v)) in o.violations {
+            let e = self.violations.entry(k).or_insert((0, v));
+            e.0 += n;
+        }
+        self.machinery.extend(o.machinery);
+        if self.sample.is_none() {
+            self.sample = o.sample;
+        }
+        self
+    }
+}
+
+pub fn run_dynamic(rep: &mut Report, tier: Tier) {
+    let thorough = tier == Tier::Thorough;
+    let depth = if thorough { 6 } else { 5 };
+    let cfg = ExploreCfg { dev_bound: Some(0), faults: true, fv: FvPolicy::False, cap_alts: 16, ..ExploreCfg::default() };
+    let mut tasks: Vec<(DynKind, Vec<Op>)> = vec![];
+    for kind in all_kinds() {
+        let alpha = Alphabet { n_labels: 2, kind, with_unknown_label: false, nocert_queries: false, max_queries: 2, nodes: std::cell::Cell::new(0) };
+        alpha.for_each_history(&[], 2, 0, &mut |h| tasks.push((kind, h.to_vec())));
+    }
+    let acc = tasks
+        .par_iter()
+        .with_max_len(1)
+        .map(|(kind, start)| {
+            let mut acc = Acc::default();
+            let alpha = Alphabet { n_labels: 2, kind: *kind, with_unknown_label: false, nocert_queries: false, max_queries: 2, nodes: std::cell::Cell::new(0) };
+            set_want_backtrace(true);
+            alpha.for_each_history(start, depth - 2, 0, &mut |h| {
+                if !h.last().map(|o| o.is_query()).unwrap_or(false) {
+                    return; // only histories ending in a query add fault positions not seen in a prefix
+                }
+                acc.histories += 1;
+                let mut found: Vec<(Vec<usize>, FaultObs)> = vec![];
+                let r = explore(&cfg, &mut |f| run_fault_aware(*kind, h, f), &mut |e: &Exec<FaultObs>| {
+                    if e.faulted {
+                        if let Ok(o) = e.result {
+                            found.push((e.choices.clone(), o.clone()));
+                        }
+                    }
+                });
+                match r {
+                    Ok(st) => acc.stats.add(&st),
+                    Err(m) => acc.machinery.push(format!("{} [{}]: {}", kind.name(), history_str(h), m.0)),
+                }
+                for (choices, o) in found {
+                    acc.faults += 1;
+                    if let Some(s) = &o.site {
+                        *acc.sites.entry(s.clone()).or_insert(0) += 1;
+                    }
+                    match &o.answered {
+                        None => acc.aborted += 1,
+                        Some(desc) => {
+                            let key = format!("level=library;solver={};symptom=answer_after_unknown", kind.type_name());
+                            let v = Violation {
+                                property: "C17".into(),
+                                key: key.clone(),
+                                message: format!("{} history [{}]: SAT call {} answered Unknown during step {:?} but the step returned {}", kind.name(), history_str(h), choices.len(), o.step.map(|s| s + 1), desc),
+                                case: json!({"engine": "dynamic_fault", "solver": kind.name(), "history": h.iter().map(|o| o.to_json()).collect::<Vec<_>>(), "choices": choices}),
+                            };
+                            let e = acc.violations.entry(key).or_insert((0, v));
+                            e.0 += 1;
+                        }
+                    }
+                    if acc.sample.is_none() {
+                        acc.sample = Some(json!({"solver": kind.name(), "history": history_str(h), "fault_at_call": choices.len(), "step": o.step, "site": o.site}));
+                    }
+                }
+            });
+            set_want_backtrace(false);
+            acc
+        })
+        .reduce(Acc::default, Acc::merge);
+    rep.states += acc.stats.nodes;
+    rep.transitions += acc.stats.edges;
+    rep.traces += acc.stats.execs;
+    rep.evaluations += acc.faults;
+    rep.extra.insert(
+        "space:dynamic solvers, 2 labels, histories ending in a query, fault at every SAT call of the default path".into(),
+        json!({"solver_configurations": all_kinds().len(), "depth": depth, "histories": acc.histories, "faults_injected": acc.faults, "faults_that_aborted_the_step": acc.aborted}),
+    );
+    rep.extra.insert("unwrap_model_sites_reached_by_injected_faults(dynamic part)".into(), json!(acc.sites));
+    rep.distinct_nontrivial += acc.sites.len() as u64;
+    if let Some(s) = acc.sample {
+        rep.add_sample(s);
+    }
+    for (_, (n, v)) in acc.violations {
+        rep.n_violations += n - 1;
+        rep.add_violation(v);
+    }
+    rep.machinery_errors.extend(acc.machinery);
+}
+
+pub fn run_rest(rep: &mut Report, tier: Tier) {
+    run_dynamic(rep, tier);
+    crate::checks::c17_proc::run_process(rep, tier);
+}
